@@ -4,6 +4,9 @@ import (
 	"bytes"
 	"fmt"
 	"io/ioutil"
+	"os"
+	"os/exec"
+	"path/filepath"
 	"strings"
 
 	"github.com/go-gts/gts"
@@ -39,13 +42,16 @@ func scanFasta(input []byte) ([]seqio.Fasta, bool) {
 func crlfBytes(b []byte) []byte { return bytes.ReplaceAll(b, []byte("\n"), []byte("\r\n")) }
 
 func runC17(o *Out) {
+	runC17FileNames(o)
 	maxLen := 160
 	if o.Tier == "thorough" {
 		maxLen = 300
 	}
 	alpha := "ACGTNacgtn*-.0123456789!\"#$%&'()+,/:;<=?@[\\]^_`{|}~ \tXYZ"
 	descs := []string{"", "seq1", "NC_001422.1 Coliphage phi-X174, complete genome", "a > b", " leading and trailing ", "tab\tinside", "x",
-		"100% identity, 5%d of %s and a %v; %!", "back\\slash and \"quotes\" {braces} $HOME"}
+		"100% identity, 5%d of %s and a %v; %!", "back\\slash and \"quotes\" {braces} $HOME",
+		// bytes, not text: Latin-1, a lone continuation byte, a truncated and a complete UTF-8 sequence
+		"Se\xf1or Latin-1", "lone \x80 byte", "cut \xe2\x82", "caf\xc3\xa9 \xe2\x82\xac ok", "\xff\xfe"}
 	// every residue count, several descriptions: write -> read
 	for n := 0; n <= maxLen; n++ {
 		data := residues(alpha, n, n)
@@ -191,5 +197,39 @@ func checkGbToFasta(o *Out, name string, seq gts.Sequence) {
 	want += " " + strings.ReplaceAll(info.Definition, "\n", " ")
 	if recs[0].Desc != want {
 		o.Violate("genbank-to-fasta-description", name, fmt.Sprintf("%q want %q", recs[0].Desc, want))
+	}
+}
+
+
+// the format of an output file is decided by the extension of its name, i.e.
+// by what follows the LAST dot of the base name: accession.version.fasta is FASTA
+func runC17FileNames(o *Out) {
+	for _, c := range []struct {
+		name string
+		want seqio.FileType
+	}{{"out.fasta", seqio.FastaFile}, {"out.genbank", seqio.GenBankFile}, {"NC_001422.1.fasta", seqio.FastaFile}, {"a.b.c.fasta", seqio.FastaFile},
+		{"dir.v2/out.fasta", seqio.FastaFile}, {"dir.fasta/out.gb", seqio.GenBankFile}, {"x.fasta.gb", seqio.GenBankFile}, {"NC_001422.1.gb", seqio.GenBankFile},
+		{"noext", seqio.DefaultFile}, {"dir.fasta/noext", seqio.DefaultFile}, {"-", seqio.DefaultFile}} {
+		if got := seqio.Detect(c.name); got != c.want {
+			o.Violate("output-format-by-extension", "Detect "+c.name, fmt.Sprintf("%v want %v", got, c.want))
+		}
+	}
+	if _, err := os.Stat(gtsBin); err != nil {
+		return
+	}
+	sb := newSandbox()
+	defer sb.close()
+	gb := gbText(mkRecord(gts.Linear, 60))
+	for _, name := range []string{"NC_001422.1.fasta", "plain.fasta", "v1.2.3.fasta"} {
+		path := filepath.Join(sb.dir, "out", name)
+		cmd := exec.Command(gtsBin, "reverse", "--no-cache", "-o", path)
+		cmd.Env = []string{"XDG_CACHE_HOME=" + filepath.Join(sb.dir, "cache"), "HOME=" + filepath.Join(sb.dir, "home"), "PATH=/usr/bin:/bin"}
+		cmd.Stdin = bytes.NewReader(gb)
+		err := cmd.Run()
+		out, _ := ioutil.ReadFile(path)
+		o.Dist["cli-output-name"]++
+		if err != nil || len(out) == 0 || out[0] != '>' {
+			o.Violate("output-format-by-extension", "gts reverse -o "+name, fmt.Sprintf("err %v, output starts %q", err, string(out[:minInt(20, len(out))])))
+		}
 	}
 }
